@@ -125,6 +125,8 @@ func runC01(c *Ctx, r *Rec) {
 		checkNoDynamicEquality(c, r, "D2c-no-dynamic-equality", fds)
 		checkCopiesTile(c, r, "D6-copies-tile", fds)
 		checkUnsignedExtremes(c, r, "D1-unsigned-extremes", fds, nil)
+		checkCloneKeepsNil(c, r, "D4-clone-keeps-nil", fds)
+		checkContainsNotDecidedBySizes(c, r, "D2c-membership-not-by-sizes", lst)
 	}
 	// ---- D2 normalisers
 	type layer struct {
